@@ -8,5 +8,7 @@ CONSTANTS
   AllowCancel = FALSE
   AllowSpurious = FALSE
   FileLayer = FALSE
+  SilentRelease = FALSE
+  ForgetsHandle = FALSE
 SPECIFICATION GSpec
 INVARIANTS Emit
